@@ -150,8 +150,25 @@ def run_miri_conc(c, tier, t_budget_note):
                                                  'fault': f'miri seed {ms}, preemption rate {rate}', 'detail': detail}})
                 return stats, violations, time.time() - t0
         stats['batches'].append({'programs': [lo, hi], 'preemption_rate': rate, 'miri_seeds': f'0..{seeds}'})
-    # two threads on one > 16 MiB buffer on a 32-bit target (length stored inside the shared block)
     miri_setup(c, 'i686-unknown-linux-gnu')
+    if thorough and not violations:
+        # the same generator's programs on a 32-bit target (4-byte words, 8-byte inline limit)
+        a, z = n_prog, n_prog + 96
+        flags = [f'-Zmiri-many-seeds=0..{seeds // 2}', '-Zmiri-preemption-rate=0.2']
+        rc, out = miri_run(c, ['conc', '--seed', str(c.SEED), '--from', str(a), '--to', str(z)], flags, target='i686-unknown-linux-gnu', timeout=3 * 3600)
+        stats['i686_programs'] = {'programs': [a, z], 'miri_seeds': f'0..{seeds // 2}', 'ok': rc == 0}
+        stats['executions'] += (z - a) * (seeds // 2)
+        if rc != 0:
+            fs = failing_seeds(out) or [0]
+            detail = miri_error_summary(out)
+            os.makedirs(c.REPLAYS, exist_ok=True)
+            path = os.path.join(c.REPLAYS, f'C04-mirisim-i686-{c.SEED}-{a}-seed{fs[0]}.json')
+            json.dump({'property': 'C04', 'engine': 'mirisim', 'mode': 'conc-range', 'seed': c.SEED, 'from': a, 'to': z, 'target': 'i686-unknown-linux-gnu',
+                       'miri_seed': fs[0], 'preemption_rate': '0.2', 'miri_error': detail, 'output_tail': out[-3000:]}, open(path, 'w'), indent=1)
+            violations.append({'class': 'miri_conc_i686|programs', 'count': len(fs), 'replay': path,
+                               'violation': {'invariant': 'miri_conc_i686', 'op': f'programs {a}..{z}', 'target': 'i686-unknown-linux-gnu',
+                                             'fault': f'miri seed {fs[0]}', 'detail': detail}})
+    # two threads on one > 16 MiB buffer on a 32-bit target (length stored inside the shared block)
     flags = [f'-Zmiri-many-seeds=0..{seeds}', '-Zmiri-preemption-rate=0.2']
     rc, out = miri_run(c, ['big32-conc'], flags, target='i686-unknown-linux-gnu', timeout=3600)
     stats['big32_conc_i686'] = {'miri_seeds': f'0..{seeds}', 'variants': 4, 'ok': rc == 0}
@@ -196,7 +213,8 @@ def run(c, tier):
         'class_counts': s.get('class_counts', {}),
         'faults_fired': {'F8_preemptions_by_scheduling_point': s.get('preemptions_by_point', {}),
                          'F1_F2_allocator_null_inside_threads': sums.get('allocator_faults_fired', 0),
-                         'programs_with_planned_allocator_faults': sums.get('programs_with_allocator_faults', 0)},
+                         'programs_with_planned_allocator_faults': sums.get('programs_with_allocator_faults', 0),
+                         'F9_programs_with_a_callback_panicking_inside_a_thread': sums.get('programs_with_a_callback_panicking_inside_a_thread', 0)},
     }
     extra = {
         'rule': "Programs: 2-3 parties (main + 1-2 spawned threads) on one buffer, handles moved in / cloned / shared by reference, 1-4 operations each from clone/drop/read/push/push_str/insert/insert_str/remove/pop/retain/truncate/clear/reserve/shrink_to/clone_from; holders on the root buffer biased to exactly 2 (50%). schedsim: each program under seeded random / sticky / PCT-style schedules with a scheduling point at every atomic operation, fence, allocator call and harness read window; oracle = per-thread sequential String model + shadow heap. Non-trivial and distinct: distinct (program, recorded schedule) pairs in which the scheduler preempted a runnable thread at one of those points at least once. Miri executions (weak memory, HB race detector) are counted in evaluations but not in distinct_nontrivial (Miri does not report where it preempted).",
@@ -328,6 +346,8 @@ def replay(c, path, j):
         flags = [f"-Zmiri-seed={j['miri_seed']}", f"-Zmiri-preemption-rate={j['preemption_rate']}"]
         if j.get('mode') in ('big32', 'big32-min', 'big32-conc', 'big32-fail'):
             rc, out = miri_run(c, [j['mode']], flags, target=j.get('target'))
+        elif j.get('mode') == 'conc-range':
+            rc, out = miri_run(c, ['conc', '--seed', str(j['seed']), '--from', str(j['from']), '--to', str(j['to'])], flags, target=j.get('target'))
         elif j.get('mode') == 'bighist':
             rc, out = miri_run(c, ['bighist', '--seed', str(j['seed']), '--from', str(j['index']), '--to', str(j['index'] + 1), '--steps', str(j['steps'])], flags, target=j.get('target'))
         elif j.get('mode') == 'hist':
